@@ -3,7 +3,7 @@
 # depends on.  Works on a scratch copy (coqchk wants compiled files of its own; the development's build dir stays
 # untouched), stamps the log with the hash of the .v sources so that a stale log is recognisable.
 set -e
-V=/verif/coq
+V=$(cd "$(dirname "$0")/.." && pwd)/coq
 S=$(mktemp -d /tmp/coqchk.XXXXXX)
 trap 'rm -rf "$S"' EXIT
 cp -r $V/theories $V/_CoqProject "$S"/ 2>/dev/null
